@@ -168,10 +168,17 @@ def nest(kind, depth):
         return "~~a " * depth + "b" + " a~~" * depth + "\n"
     if kind == "mixed":
         return "".join(("> ", "- ", "1. ")[i % 3] for i in range(depth)) + "a\n"
+    if kind == "table_ragged":
+        # header of `depth` columns, `depth` body rows of one cell (every row is completed to the header width)
+        d = min(depth, 300)
+        return "|" + "h|" * max(1, d) + "\n|" + "-|" * max(1, d) + "\n" + "|c\n" * d
+    if kind == "table_wide_row":
+        d = min(depth, 2000)
+        return "|h|\n|-|\n|" + "c|" * d + "\n"
     if kind == "quote_list_lines":
         return "".join("> " * i + "- a\n" for i in range(depth))
     raise KeyError(kind)
 
 
 NEST_KINDS = ["quote", "quote_sp", "bullet", "ordered", "bullet_lines", "em", "strong", "stars", "link", "image",
-              "brackets", "parens", "strike", "mixed", "quote_list_lines"]
+              "brackets", "parens", "strike", "mixed", "quote_list_lines", "table_ragged", "table_wide_row"]
